@@ -878,7 +878,7 @@ PROPS = {
                          'core/src/constants/direction.rs', 'core/src/constants/square.rs'],
                 assumptions=['rustc evaluates the const tables as dumped by the same binary at run time']),
     'C05': dict(modules=['Inkayaku.Props.C05'], theorems=['Inkayaku.C05.square_attacked', 'Inkayaku.C05.in_check', 'Inkayaku.C05.current_in_check', 'Inkayaku.C05.valid', 'Inkayaku.C05.move_legal', 'Inkayaku.C05.wf_not_in_check', 'Inkayaku.C05.occupancy_in_check', 'Inkayaku.C05.no_moves_iff'], cases=c05_cases, anchors=BOARD_ANCHORS),
-    'C06': dict(modules=[], theorems=[], cases=c06_cases, post=c06_post, anchors=BOARD_ANCHORS),
+    'C06': dict(modules=['Inkayaku.Props.C06'], theorems=['Inkayaku.C06.hash_incremental', 'Inkayaku.C06.pawnHash_incremental', 'Inkayaku.C06.hash_congr', 'Inkayaku.C06.hash_vis', 'Inkayaku.C06.hash_clocks', 'Inkayaku.C06.keys_good', 'Inkayaku.C06.hash_side', 'Inkayaku.C06.hash_toggles_right', 'Inkayaku.C06.hash_ep_file', 'Inkayaku.C06.hash_moves_piece', 'Inkayaku.C06.hash_changes_kind'], cases=c06_cases, post=c06_post, anchors=BOARD_ANCHORS),
     'C10': dict(modules=['Inkayaku.Props.C10', 'Inkayaku.Props.C10Fifty'],
                 theorems=['Inkayaku.C10.countRepetitions_value', 'Inkayaku.C10.countRepetitions_spec',
                           'Inkayaku.C10.never_reads_above_start', 'Inkayaku.C10.threefold_iff',
